@@ -258,8 +258,10 @@ let () =
               Hashtbl.replace pool id' { r with w = w ^ "/" ^ kind; args = [int_of_string x; int_of_string y]; tok = t' };
               let xo = get (int_of_string x) and yo = get (int_of_string y) in
               let c = { t = rest } in
-              if next c <> "cons" then raise (Syntax "expected cons");
-              let cs = read_cons c xo.dim in
+              let cs = (match next c with
+                | "cons" -> read_cons c xo.dim
+                | "consx" -> bump "lim:own-constraints"; xo.cons          (* x's own constraints as the limit *)
+                | _ -> raise (Syntax "expected cons")) in
               let extra = c.t in
               let k = w ^ "/" ^ kind in
               (* triggering condition attached to the comparisons with the plain widening of the same objects *)
@@ -298,7 +300,17 @@ let () =
                        | Some contained ->
                          let exp_t = int_of_nat (tok_after contained (nat t)) in
                          report (k ^ "/tokens-count") (if exp_t = t' then Ok else Fail (Printf.sprintf "tokens %d -> %d, specification %d" t t' exp_t));
-                         report (k ^ "/tokens-value") (want true (equiv r xo))
+                         report (k ^ "/tokens-value") (want true (equiv r xo));
+                         (* against the plain extrapolation WITH THE SAME limiting system *)
+                         (match opt "lplain" extra with
+                          | Some lp ->
+                            (match incl (get (int_of_string lp)) xo with
+                             | Some c2 ->
+                               let e2 = int_of_nat (tok_after c2 (nat t)) in
+                               bump (if c2 = contained then "lim-tokens:agree" else "lim-tokens:limited-precise-plain-not");
+                               report (k ^ "/tokens-same-parameters" ^ (if e2 <> t' && c2 && not contained && t' = t - 1 then ":limited-precise-token-spent" else "")) (if e2 = t' then Ok else Fail (Printf.sprintf "tokens %d -> %d; the extrapolation with the same limiting system is %s x, so %d were expected" t t' (if c2 then "contained in" else "not contained in") e2))
+                             | None -> report (k ^ "/tokens-same-parameters") Undecided)
+                          | None -> ())
                        | None -> report (k ^ "/tokens-count") Undecided)
                     end)
                | Some false -> genbug "y is not contained in x"
